@@ -26,6 +26,11 @@ CountsSum == \A k \in 1..W : LET c == Counts(rows, k)
                                  RECURSIVE Sum(_)
                                  Sum(S) == IF S = {} THEN 0 ELSE LET x == CHOOSE x \in S : TRUE IN x[2] + Sum(S \ {x})
                              IN Sum(c) = TotalWindows(rows, k)
+\* counting is additive over the rows: the collection repeated m times has m times the counts (this lets a small state stand for an
+\* input of millions of windows)
+RepRows(m) == [q \in 1..(m * Len(rows)) |-> rows[((q - 1) % Len(rows)) + 1]]
+CountsOfRepeat == \A k \in 1..W : \A m \in {2, 3} :
+                     rows # <<>> => Counts(RepRows(m), k) = {<<c[1], m * c[2]>> : c \in Counts(rows, k)}
 MinimizerIsAKmer == \A k \in 1..W : \A w \in k..W : \A j \in DOMAIN rows : \A i \in 1..NWin(rows[j], w) :
                        \E q \in i..(i + w - k) : Minimizers(rows, k, w)[j][i] = Window(rows[j], q, k)
 \* action property: extending the last row never changes what the earlier rows yield, and only appends to its own
